@@ -44,6 +44,7 @@ type SimNet struct {
 	// decision does not depend on the order in which concurrent goroutines reach the network.
 	FaultFn   func(class string, occ int) string
 	OnRequest func(r *NetReq)
+	Latency   time.Duration
 }
 
 func NewSimNet() *SimNet {
@@ -87,6 +88,9 @@ func (n *SimNet) RoundTrip(req *http.Request) (*http.Response, error) {
 	if fault == "" {
 		fault = n.Faults[fmt.Sprintf("%s#%d", class, o)]
 	}
+	if fault == "" {
+		fault = n.Faults[class+"#*"]
+	}
 	if fault == "" && n.FaultFn != nil {
 		fault = n.FaultFn(class, o)
 	}
@@ -106,6 +110,14 @@ func (n *SimNet) RoundTrip(req *http.Request) (*http.Response, error) {
 		onReq(rec)
 	}
 	key := fmt.Sprintf("%s#%d", class, o)
+	if n.Latency > 0 {
+		// every exchange takes simulated time, so that a client looping on redirects or retries runs into its timeouts
+		select {
+		case <-time.After(n.Latency):
+		case <-req.Context().Done():
+			return nil, req.Context().Err()
+		}
+	}
 	if park != nil {
 		park("net>" + key)
 	}
@@ -162,10 +174,17 @@ func (n *SimNet) RoundTrip(req *http.Request) (*http.Response, error) {
 		resp.Status = fmt.Sprintf("%d %s", argN, http.StatusText(int(argN)))
 		resp.Body = io.NopCloser(bytes.NewReader(b))
 		rec.Status = resp.StatusCode
+	case "redirloop":
+		// a redirect back to the very same URL, for ever
+		resp.StatusCode = int(argN)
+		resp.Status = fmt.Sprintf("%d %s", argN, http.StatusText(int(argN)))
+		resp.Header.Set("Location", req.URL.EscapedPath())
+		resp.Body = io.NopCloser(bytes.NewReader(nil))
+		rec.Status = resp.StatusCode
 	case "redirect":
 		resp.StatusCode = int(argN)
 		resp.Status = fmt.Sprintf("%d %s", argN, http.StatusText(int(argN)))
-		resp.Header.Set("Location", "/redirected"+req.URL.Path)
+		resp.Header.Set("Location", "/redirected"+req.URL.EscapedPath())
 		resp.Body = io.NopCloser(bytes.NewReader(nil))
 		rec.Status = resp.StatusCode
 	case "trunc":
